@@ -71,6 +71,7 @@ func u64s(v []int) []uint64 {
 const maxU = 8
 
 var curWorld *World
+var famBound bool
 
 var tNew, tClose, tRestart, tObs time.Duration
 
@@ -93,28 +94,40 @@ func universe(u int) []string {
 func runHistory(f *Fixtures, d Desc) (res []stepRes, panicked interface{}) {
 	t0 := time.Now()
 	univ := universe(d.U)
-	if curWorld == nil || curWorld.uses > 150 {
-		if curWorld != nil {
-			curWorld.Close()
-		}
-		curWorld = NewWorld(f)
+	var w *World
+	failed := func(r interface{}) {
+		panicked = fmt.Sprintf("%v\n%s", r, debug.Stack())
+		func() {
+			defer func() { _ = recover() }()
+			if curWorld != nil {
+				curWorld.Close()
+			}
+		}()
+		curWorld = nil
 	}
-	w := curWorld
-	tNew += time.Since(t0)
 	defer func() {
 		if r := recover(); r != nil {
-			panicked = fmt.Sprintf("%v\n%s", r, debug.Stack())
-			func() {
-				defer func() { _ = recover() }()
-				curWorld.Close()
-			}()
-			curWorld = nil
+			failed(r)
 			return
 		}
+		defer func() { // the restart of the components for the next history can fail too
+			if r := recover(); r != nil {
+				failed(r)
+			}
+		}()
 		t1 := time.Now()
 		w.Reset(universe(maxU))
 		tClose += time.Since(t1)
 	}()
+	if curWorld == nil || curWorld.uses > 150 {
+		if curWorld != nil {
+			curWorld.Close()
+		}
+		curWorld = nil
+		curWorld = NewWorld(f)
+	}
+	w = curWorld
+	tNew += time.Since(t0)
 	for _, o := range d.Ops {
 		var sr stepRes
 		switch o.K {
@@ -272,129 +285,305 @@ func caseTerm(d Desc, res []stepRes) string {
 
 // ---------------------------------------------------------------- generator
 
+// hgen is the generator state of one history
+type hgen struct {
+	r       *vlib.Rand
+	hostile bool
+	u       int
+	h       int // change numbers are disjoint from object ids
+	histLen int // rough upper bound of the notification history, for stale indexes
+	created []int
+	ops     []Op
+}
+
+func (g *hgen) pick() int { return 1 + g.r.Intn(g.u) }
+func (g *hgen) pickCreated() int {
+	if len(g.created) == 0 || g.r.Chance(1, 5) {
+		return g.pick()
+	}
+	return g.created[g.r.Intn(len(g.created))]
+}
+
+// a target for the staged ops: mostly an id nothing has been created for yet (so that the stage is reached)
+func (g *hgen) pickFresh() int {
+	if g.r.Chance(1, 4) {
+		return g.pick()
+	}
+	var free []int
+	for i := 1; i <= g.u; i++ {
+		used := false
+		for _, c := range g.created {
+			used = used || c == i
+		}
+		if !used {
+			free = append(free, i)
+		}
+	}
+	if len(free) == 0 {
+		return g.pick()
+	}
+	return free[g.r.Intn(len(free))]
+}
+func (g *hgen) parent(i int) int {
+	if g.r.Chance(3, 5) {
+		return 0
+	}
+	p := g.pickCreated()
+	if p == i && !g.hostile {
+		return 0
+	}
+	return p
+}
+func (g *hgen) add(o Op) { g.ops = append(g.ops, o) }
+
+// randomOp appends one op (sometimes two) drawn from the whole alphabet
+func (g *hgen) randomOp() {
+	r := g.r
+	x := r.Intn(100)
+	switch {
+	case x < 16:
+		i := g.pick()
+		g.add(Op{K: "put", I: i, P: g.parent(i), Derived: r.Chance(1, 6)})
+		g.created = append(g.created, i)
+		g.histLen += 2
+	case x < 26:
+		i := g.pick()
+		g.h++
+		g.add(Op{K: "fetch", I: i, P: g.parent(i), Derived: r.Chance(1, 8), H: g.h, Remote: !r.Chance(1, 6)})
+		g.created = append(g.created, i)
+		g.histLen += 3
+	case x < 28:
+		i := g.pick()
+		g.h++
+		g.add(Op{K: "race", I: i, P: g.parent(i), Derived: r.Chance(1, 8), H: g.h})
+		g.histLen += 5
+	case x < 37: // the deletion is recorded at a generated stage of the fetch, as queued or as deleted
+		i := g.pickFresh()
+		g.h++
+		o := Op{K: "frace", I: i, P: g.parent(i), Derived: r.Chance(1, 8), H: g.h, St: r.Intn(len(fetchPoints)), Del: 1 + r.Intn(2)}
+		if r.Chance(1, 12) {
+			o.Del = 0
+		}
+		g.add(o)
+		if o.St == len(fetchPoints)-1 {
+			g.created = append(g.created, i)
+		}
+		g.histLen += 6
+	case x < 41: // the same for PutSyncTree
+		i := g.pickFresh()
+		o := Op{K: "prace", I: i, P: g.parent(i), Derived: r.Chance(1, 6), St: r.Intn(len(putPoints)), Del: 1 + r.Intn(2)}
+		if r.Chance(1, 12) {
+			o.Del = 0
+		}
+		g.add(o)
+		if o.St == len(putPoints)-1 {
+			g.created = append(g.created, i)
+		}
+		g.histLen += 5
+	case x < 52:
+		g.h++
+		g.add(Op{K: "head", I: g.pickCreated(), H: g.h})
+		g.histLen++
+	case x < 59:
+		g.add(Op{K: "stale", N: r.Intn(g.histLen + 2)})
+	case x < 72:
+		k := 1 + r.Intn(2)
+		ids := make([]int, k)
+		for j := range ids {
+			ids[j] = g.pickCreated()
+		}
+		g.add(Op{K: "settings", Ids: ids})
+		g.histLen += k
+	case x < 76:
+		g.add(Op{K: "sinit"})
+	case x < 92:
+		o := Op{K: "worker", Kc: -1}
+		if r.Chance(1, 3) {
+			o.Kc = r.Intn(4)
+		}
+		if r.Chance(1, 5) {
+			o.Fail = []int{g.pick()}
+		}
+		g.add(o)
+		g.histLen += 3
+	case x < 96:
+		g.add(Op{K: "stale", N: r.Intn(g.histLen + 2)})
+	default:
+		g.add(Op{K: "restart"})
+		g.histLen = 0
+		if r.Chance(2, 3) {
+			g.add(Op{K: "sinit"})
+		}
+	}
+}
+
 func genHistory(r *vlib.Rand, hostile bool) Desc {
 	u := 4 + r.Intn(4)
 	n := 10 + r.Intn(26)
-	d := Desc{Kind: "hist", U: u}
-	h := 1000 // change numbers are disjoint from object ids
-	histLen := 0 // rough upper bound of the notification history, for stale indexes
-	created := []int{}
-	pick := func() int { return 1 + r.Intn(u) }
-	pickCreated := func() int {
-		if len(created) == 0 || r.Chance(1, 5) {
-			return pick()
-		}
-		return created[r.Intn(len(created))]
+	g := &hgen{r: r, hostile: hostile, u: u, h: 1000}
+	for len(g.ops) < n {
+		g.randomOp()
 	}
-	// a target for the staged ops: mostly an id nothing has been created for yet (so that the stage is reached)
-	pickFresh := func() int {
-		if r.Chance(1, 4) {
-			return pick()
-		}
-		var free []int
-		for i := 1; i <= u; i++ {
-			used := false
-			for _, c := range created {
-				used = used || c == i
-			}
-			if !used {
-				free = append(free, i)
-			}
-		}
-		if len(free) == 0 {
-			return pick()
-		}
-		return free[r.Intn(len(free))]
+	return Desc{Kind: "hist", U: u, Ops: g.ops}
+}
+
+// genBound: histories around BOUND CHILDREN.  A parent and 1-3 children bound to it (roots with ParentId = parent,
+// mostly derived) exist locally, most of them with changes besides the root (so they are advertised), next to
+// unrelated objects; a deletion record arrives that lists the parent ONLY (what a peer writes that never saw the
+// children), or the parent and some of the children, or - rarely - a child only; then the deletion worker runs
+// (mostly to completion; sometimes cancelled after k tree-manager calls or with a tree manager failing for a child),
+// so that the unlisted children go NotDeleted -> Deleted directly in deleter.deleteBoundChildren, and the history goes
+// on with late re-deliveries, changes / fetches / puts for the deleted ids, late children, restarts, further worker
+// runs and ops from the whole alphabet.  Same op alphabet, model and spec as the other histories.
+func genBound(r *vlib.Rand) Desc {
+	u := 4 + r.Intn(4)
+	g := &hgen{r: r, u: u, h: 1000}
+	perm := r.Perm(u)
+	id := func(k int) int { return perm[k] + 1 }
+	par := id(0)
+	nch := 1 + r.Intn(3)
+	if nch > u-2 {
+		nch = u - 2
 	}
-	parent := func(i int) int {
-		if r.Chance(3, 5) {
-			return 0
-		}
-		p := pickCreated()
-		if p == i && !hostile {
-			return 0
-		}
-		return p
+	children := make([]int, nch)
+	for k := range children {
+		children[k] = id(1 + k)
 	}
-	for len(d.Ops) < n {
-		x := r.Intn(100)
-		switch {
-		case x < 16:
-			i := pick()
-			d.Ops = append(d.Ops, Op{K: "put", I: i, P: parent(i), Derived: r.Chance(1, 6)})
-			created = append(created, i)
-			histLen += 2
-		case x < 26:
-			i := pick()
-			h++
-			d.Ops = append(d.Ops, Op{K: "fetch", I: i, P: parent(i), Derived: r.Chance(1, 8), H: h, Remote: !r.Chance(1, 6)})
-			created = append(created, i)
-			histLen += 3
-		case x < 28:
-			i := pick()
-			h++
-			d.Ops = append(d.Ops, Op{K: "race", I: i, P: parent(i), Derived: r.Chance(1, 8), H: h})
-			histLen += 5
-		case x < 37: // the deletion is recorded at a generated stage of the fetch, as queued or as deleted
-			i := pickFresh()
-			h++
-			o := Op{K: "frace", I: i, P: parent(i), Derived: r.Chance(1, 8), H: h, St: r.Intn(len(fetchPoints)), Del: 1 + r.Intn(2)}
-			if r.Chance(1, 12) {
-				o.Del = 0
+	others := []int{}
+	for k := 1 + nch; k < u; k++ {
+		others = append(others, id(k))
+	}
+	create := func(i, p int, derived bool) {
+		if r.Chance(1, 2) {
+			g.add(Op{K: "put", I: i, P: p, Derived: derived})
+			g.histLen += 2
+		} else {
+			g.h++
+			g.add(Op{K: "fetch", I: i, P: p, Derived: derived, H: g.h, Remote: true})
+			g.histLen += 3
+		}
+		g.created = append(g.created, i)
+	}
+	heads := func(i, n int) {
+		for k := 0; k < n; k++ {
+			g.h++
+			g.add(Op{K: "head", I: i, H: g.h})
+			g.histLen++
+		}
+	}
+	noise := func(p, q int) {
+		for r.Chance(p, q) {
+			g.randomOp()
+		}
+	}
+	// the family
+	create(par, 0, false)
+	heads(par, r.Intn(3))
+	nOthers := 0
+	if len(others) > 0 {
+		nOthers = 1 + r.Intn(len(others))
+	}
+	for k := 0; k < nOthers && r.Chance(1, 2); k++ {
+		create(others[k], 0, r.Chance(1, 6))
+		heads(others[k], r.Intn(2))
+	}
+	for _, c := range children {
+		create(c, par, !r.Chance(1, 4))
+		n := 1 + r.Intn(2)
+		if r.Chance(1, 5) {
+			n = 0 // an empty (derived) child: never advertised by live updates
+		}
+		heads(c, n)
+		noise(1, 8)
+	}
+	for k := 0; k < nOthers; k++ {
+		already := false
+		for _, c := range g.created {
+			already = already || c == others[k]
+		}
+		if !already {
+			create(others[k], 0, r.Chance(1, 6))
+			heads(others[k], 1+r.Intn(2))
+		}
+	}
+	noise(1, 6)
+	// the deletion record
+	var ids []int
+	switch x := r.Intn(10); {
+	case x < 6:
+		ids = []int{par}
+	case x < 8:
+		ids = []int{par}
+		for _, c := range children {
+			if r.Chance(1, 2) {
+				ids = append(ids, c)
 			}
-			d.Ops = append(d.Ops, o)
-			if o.St == len(fetchPoints)-1 {
-				created = append(created, i)
-			}
-			histLen += 6
-		case x < 41: // the same for PutSyncTree
-			i := pickFresh()
-			o := Op{K: "prace", I: i, P: parent(i), Derived: r.Chance(1, 6), St: r.Intn(len(putPoints)), Del: 1 + r.Intn(2)}
-			if r.Chance(1, 12) {
-				o.Del = 0
-			}
-			d.Ops = append(d.Ops, o)
-			if o.St == len(putPoints)-1 {
-				created = append(created, i)
-			}
-			histLen += 5
-		case x < 52:
-			h++
-			d.Ops = append(d.Ops, Op{K: "head", I: pickCreated(), H: h})
-			histLen++
-		case x < 59:
-			d.Ops = append(d.Ops, Op{K: "stale", N: r.Intn(histLen + 2)})
-		case x < 72:
-			k := 1 + r.Intn(2)
-			ids := make([]int, k)
-			for j := range ids {
-				ids[j] = pickCreated()
-			}
-			d.Ops = append(d.Ops, Op{K: "settings", Ids: ids})
-			histLen += k
-		case x < 76:
-			d.Ops = append(d.Ops, Op{K: "sinit"})
-		case x < 92:
-			o := Op{K: "worker", Kc: -1}
-			if r.Chance(1, 3) {
-				o.Kc = r.Intn(4)
-			}
-			if r.Chance(1, 5) {
-				o.Fail = []int{pick()}
-			}
-			d.Ops = append(d.Ops, o)
-			histLen += 3
-		case x < 96:
-			d.Ops = append(d.Ops, Op{K: "stale", N: r.Intn(histLen + 2)})
-		default:
-			d.Ops = append(d.Ops, Op{K: "restart"})
-			histLen = 0
+		}
+	case x < 9:
+		ids = []int{children[r.Intn(nch)]}
+	default:
+		ids = []int{par}
+		if nOthers > 0 {
+			ids = append(ids, others[0])
+		}
+	}
+	g.add(Op{K: "settings", Ids: ids})
+	g.histLen += len(ids)
+	// between the record and the worker: the children are still live
+	if r.Chance(1, 3) {
+		heads(children[r.Intn(nch)], 1)
+	}
+	if r.Chance(1, 5) && len(others) > nOthers { // a late child: queued in its creating transaction
+		create(others[nOthers], par, r.Chance(1, 2))
+	}
+	if r.Chance(1, 6) {
+		g.add(Op{K: "stale", N: r.Intn(g.histLen + 1)})
+	}
+	// the worker
+	wk := Op{K: "worker", Kc: -1}
+	switch x := r.Intn(10); {
+	case x < 7:
+	case x < 9:
+		wk.Kc = r.Intn(2 + nch)
+	default:
+		wk.Fail = []int{children[r.Intn(nch)]}
+	}
+	g.add(wk)
+	g.histLen += 2 + nch
+	// afterwards
+	n := 3 + r.Intn(8)
+	for k := 0; k < n; k++ {
+		tgt := par
+		if r.Chance(2, 3) {
+			tgt = children[r.Intn(nch)]
+		}
+		switch x := r.Intn(12); {
+		case x < 2:
+			g.add(Op{K: "stale", N: r.Intn(g.histLen + 1)})
+		case x < 3:
+			heads(tgt, 1)
+		case x < 4:
+			g.h++
+			g.add(Op{K: "fetch", I: tgt, P: 0, H: g.h, Remote: true})
+		case x < 5:
+			g.add(Op{K: "put", I: tgt, P: par, Derived: r.Chance(1, 2)})
+		case x < 6:
+			g.add(Op{K: "restart"})
+			g.histLen = 0
 			if r.Chance(2, 3) {
-				d.Ops = append(d.Ops, Op{K: "sinit"})
+				g.add(Op{K: "sinit"})
 			}
+		case x < 8:
+			g.add(Op{K: "worker", Kc: -1})
+			g.histLen += 2
+		case x < 9:
+			g.add(Op{K: "settings", Ids: []int{tgt}})
+			g.histLen++
+		default:
+			g.randomOp()
 		}
 	}
-	return d
+	return Desc{Kind: "hist", U: u, Ops: g.ops}
 }
 
 // non-triviality: some id is tombstoned and afterwards a put / fetch / race / head / stale op is issued for a
@@ -403,6 +592,9 @@ func nontrivial(d Desc, res []stepRes) bool {
 	tomb := map[int]bool{}
 	any := false
 	for k, o := range d.Ops {
+		if directDeletes(d, res, k) > 0 {
+			return true
+		}
 		switch o.K {
 		case "put", "fetch", "race", "head", "frace", "prace":
 			if tomb[o.I] || (res[k].fired && o.Del > 0) {
@@ -423,6 +615,22 @@ func nontrivial(d Desc, res []stepRes) bool {
 	return false
 }
 
+// directDeletes: ids that op k (a worker run) took from not deleted to deleted in one step while they were advertised
+// (bound children deleted with their parent without ever being queued)
+func directDeletes(d Desc, res []stepRes, k int) int {
+	if d.Ops[k].K != "worker" || k == 0 {
+		return 0
+	}
+	n := 0
+	for j, a := range res[k].obs {
+		b := res[k-1].obs[j]
+		if b.St == 1 && b.Idx && a.St == 3 {
+			n++
+		}
+	}
+	return n
+}
+
 func key(d Desc) string {
 	b, _ := json.Marshal(d.Ops)
 	return fmt.Sprintf("%d|%s", d.U, b)
@@ -441,7 +649,12 @@ func main() {
 	w := vlib.NewWriter(o.Out, "C15_run", 250)
 	var samples []interface{}
 
+	hangs := 0
 	emit := func(d Desc) {
+		if hangs >= 2 { // every further history would wait for the watchdog again
+			w.Stat("hist:skipped-after-two-hangs")
+			return
+		}
 		for k := range d.Ops { // replayed descriptions: keep the staged ops inside their ranges
 			op := &d.Ops[k]
 			if op.K == "frace" || op.K == "prace" {
@@ -456,12 +669,20 @@ func main() {
 		res, p := runHistory(f, d)
 		if p != nil {
 			idx := w.Add("CHist [] [] []", d, key(d), false)
-			w.Violation(idx, "panic", fmt.Sprint(p), d)
+			tag := "panic"
+			if strings.HasPrefix(fmt.Sprint(p), "head-storage notification") {
+				tag = "hang"
+				hangs++
+			}
+			w.Violation(idx, tag, fmt.Sprint(p), d)
 			return
 		}
 		nt := nontrivial(d, res)
 		for k, op := range d.Ops {
 			w.Stat("op:" + op.K)
+			if directDeletes(d, res, k) > 0 {
+				w.Stat("worker:deleted-an-advertised-unqueued-bound-child")
+			}
 			if op.K == "frace" || op.K == "prace" {
 				pts := fetchPoints
 				if op.K == "prace" {
@@ -482,6 +703,12 @@ func main() {
 		}
 		if nt {
 			w.Stat("hist:nontrivial")
+		}
+		if famBound {
+			w.Stat("hist:family-bound-children")
+			if nt {
+				w.Stat("hist:family-bound-children:nontrivial")
+			}
 		}
 		w.Add(caseTerm(d, res), d, key(d), nt)
 		if len(samples) < 3 && nt {
@@ -594,6 +821,11 @@ func main() {
 		for i := 0; i < n; i++ {
 			emit(genHistory(r.Fork(uint64(i)), i%7 == 6))
 		}
+		for i := 0; i < n/3; i++ {
+			famBound = true
+			emit(genBound(r.Fork(uint64(3000000 + i))))
+			famBound = false
+		}
 		for i := 0; i < n/2; i++ {
 			emitSettings(genSettings(r.Fork(uint64(1000000 + i))))
 		}
@@ -602,8 +834,8 @@ func main() {
 		}
 	}
 	if os.Getenv("VERIF_C15_TIMING") != "" {
-		fmt.Fprintln(os.Stderr, "timing new/close/restart/obs:", tNew, tClose, tRestart, tObs)
+		fmt.Fprintln(os.Stderr, "timing new/close/restart/obs:", tNew, tClose, tRestart, tObs, "drain:", tDrain, nDrain)
 	}
-	w.Finish("history in which some id is tombstoned and afterwards put/fetch/race/head targets a tombstoned id, or a deletion is recorded at a generated stage of a fetch / put (frace: after the local lookup, before the request, response in flight, deferred storage handed out, entry of the first AddAll, after it; prace: before the tombstone check, before the creating transaction, after it; as queued or as deleted), or a stale re-delivery / restart happens while something is tombstoned; settings (linear log): has a snapshot and more than one arrival batch; sobj (branching settings log through real settings objects at 2-4 replicas): at least one listener call in Rebuild mode; distinct by op list / description",
-		samples, map[string]interface{}{"generator": strings.TrimSpace("c15-v3-staged-sobj")})
+	w.Finish("history in which a worker run deletes an advertised bound child that was never queued (NotDeleted -> Deleted directly), or some id is tombstoned and afterwards put/fetch/race/head targets a tombstoned id, or a deletion is recorded at a generated stage of a fetch / put (frace: after the local lookup, before the request, response in flight, deferred storage handed out, entry of the first AddAll, after it; prace: before the tombstone check, before the creating transaction, after it; as queued or as deleted), or a stale re-delivery / restart happens while something is tombstoned; settings (linear log): has a snapshot and more than one arrival batch; sobj (branching settings log through real settings objects at 2-4 replicas): at least one listener call in Rebuild mode; distinct by op list / description",
+		samples, map[string]interface{}{"generator": strings.TrimSpace("c15-v4-staged-sobj-headsync-bound")})
 }
